@@ -107,11 +107,17 @@ def same_structure(ev_adv, ev_ph, sub):
     return None
 
 
-def adv_env(rng):
+def adv_env(rng, harmless_keys):
     env = gen_tmpl.gen_env(rng, strings=ADV + ["", "plain", "a b"])
-    # map keys stay harmless here (a key is an attribute *name*; see known finding F37 for keys with spaces)
-    env["M"] = {k: rng.choice(ADV) for k in rng.sample(["k1", "k2", "data-z", "title2"], rng.randint(0, 4))}
-    env["MB"] = {k: rng.random() < 0.6 for k in rng.sample(["on", "off", "x-y", "d_e"], rng.randint(0, 4))}
+    if harmless_keys:
+        # for the tokenizer comparison map keys stay harmless: a key of an @attributes map is an attribute *name*, which
+        # HTML escaping cannot protect against white space or '='
+        env["M"] = {k: rng.choice(ADV) for k in rng.sample(["k1", "k2", "data-z", "title2"], rng.randint(0, 4))}
+        env["MB"] = {k: rng.random() < 0.6 for k in rng.sample(["on", "off", "x-y", "d_e"], rng.randint(0, 4))}
+    else:
+        keys = ["k1", "k2", '"><b>', "a<b", "x'y", "q\"q", "d&e", "é", "☢~"]
+        env["M"] = {k: rng.choice(ADV) for k in rng.sample(keys, rng.randint(0, 4))}
+        env["MB"] = {k: rng.random() < 0.7 for k in rng.sample(keys + [""], rng.randint(0, 4))}
     return env
 
 
@@ -144,7 +150,7 @@ def run(chk):
                 def envs_for(f, t):
                     out = []
                     for _ in range(4):
-                        e = adv_env(rng)
+                        e = adv_env(rng, no_raw)
                         out.append(e)
                     return out
 
